@@ -49,6 +49,12 @@ def build(cfg, like=None):
     if c.get("ro_buffer"):
         like.ro_buffer = True        # vectorised likelihood returns a read-only view of a buffer it reuses on the next call
     pt = idblob.Transform(t, dtype=c.get("xdtype"), alias=c.get("xalias", False), style=c.get("xstyle"))
+    if c.get("pool") == "tpe":
+        from tvf.checks.c13 import make_tpe
+        c["pool"] = make_tpe(4, int(c.get("seed", 0) or 0) + 3)      # a genuine concurrent.futures.ThreadPoolExecutor, calls finish out of order
+    elif c.get("pool") == "threadpool":
+        from multiprocessing.pool import ThreadPool
+        c["pool"] = ThreadPool(2)
     periodic, reflective = t.periodic, t.reflective
     if c["bc"] != "target":
         periodic, reflective = c["bc"]
